@@ -12,6 +12,8 @@
         record, the marginal gradient at the record's own cell
   public-data-unmodified   the returned Dataset is built from the public frame and domain, and no method of PublicInference
         stores into / mutates self.public_data
+  weights-unshared     no in-place operation in the reweighting path reaches an array handed in by the caller or stored on the engine
+        (the current weight vector is the array inside every Dataset returned earlier)
 Not decided: 'never worse than uniform' as a numeric fact (depends on the line search's arithmetic).
 """
 import ast
@@ -67,6 +69,7 @@ def run(ctx):
         raise AnalysisError('entropic_mirror_descent: cannot identify the iterate whose exponential is returned')
     check_estimate(ctx, est, emd)
     check_unmodified(ctx)
+    check_inputs_unmodified(ctx)
     from .C04 import check_loss
     check_loss(ctx, repo.nfunc(PI, 'PublicInference._marginal_loss'))
     check_weight_gradient(ctx, est)
@@ -277,6 +280,33 @@ def check_iterate_storage(ctx, fi, var, loops):
                                               'after an accepted step `%s` and `%s` can be one array, so this write changes the current iterate although the '
                                               'trial step has not been accepted (loss and gradient then belong to another point)' % (var, wr)),
                construct='storage of the iterate vs `%s`' % U(st)[:50])
+
+
+def check_inputs_unmodified(ctx):
+    """The optimiser is handed the engine's current weight vector, which is also the `weights` array of every Dataset the engine has already
+    returned (estimate builds them around self.weights without copying).  Any in-place operation that reaches that array - through a
+    parameter of entropic_mirror_descent or through state of the engine - rewrites results the caller already holds: their answers then
+    sum to the total of a LATER call.  E2 origin analysis over the module: every in-place site acts on arrays of the call."""
+    from ..engines.alias import Scope
+    scope = Scope(ctx.repo, [PI], {})
+    scope.solve()
+    n = 0
+    seen = set()
+    for (rel, q), summ in scope.summaries.items():
+        if rel != PI or q not in ('entropic_mirror_descent', 'PublicInference.estimate', 'estimate_total'):
+            continue
+        fi = ctx.repo.nfunc(PI, q)
+        for site in summ.sites:
+            k = (q, getattr(site.node, 'lineno', 0), getattr(site.node, 'col_offset', 0), site.what)
+            if k in seen:
+                continue
+            seen.add(k)
+            n += 1
+            bad = sorted(t for t in site.origins if t.startswith(('S:', 'P:', 'Pe:')) and not t.endswith(':self'))
+            ctx.ob('weights-unshared', fi, site.node, not bad,
+                   '%s acts on %s' % (site.what, 'arrays of this call' if not bad else
+                                      '%s: the weight vector handed in is the array inside every Dataset returned earlier, which is rewritten' % ', '.join(bad)))
+    ctx.counters['in-place sites in the reweighting path'] = n
 
 
 def names_assigned(stmt):
